@@ -78,7 +78,12 @@ class NetWorld(World):
         "explicit weights are small dyadic rationals (sums exact); after a reload weights are geometric lengths and "
         "distances are compared to 1e-9 relative",
         "single-pair queries with a finite cut-off are not generated (C06's cut-off sentence is about the all-pairs table)",
-        "prepared distances read after later growth are stale by design: recorded, not judged",
+        "the prepared table is modelled exactly (documented accumulation); a network in A* mode or with a weight that "
+        "is not a number is recorded, not judged, until it is back in Dijkstra mode / repaired",
+        "which edges sub_network keeps, which vertices simplify keeps and what rescaling computes are adopted, not judged; "
+        "networks sharing their Edge objects (an extract and its parent) are one group: neither is re-weighed or rescaled",
+        "mixed integer / text identifiers in one network and a half-failed addEdge are not generated (the unchanged "
+        "tree does not support them)",
         "HMM optimality (C09) is not judged; only the geometric validity of every inferred state",
         "the reference model and oracles in /verif/sim/worlds/net.py are correct"]
 
